@@ -116,6 +116,9 @@ def short_name(n):
 
 def _proof_check(c, f, b, prov, g, okb, errs, tag, commit_call, field, missing, witness_field, verify, kind, fail_err):
     want_discr = "discr(%s(%s.%s))" % (commit_call, OUT, field)
+    # `if let X::Confidential(c) = out.field` is the same test as `if let Some(c) = out.field.commitment()`
+    # (the accessor maps Confidential(c) to Some(c) and everything else to None: R1c.commitment-accessor)
+    alt_discr = "discr(%s.%s)" % (OUT, field)
     vs = _ev(b, verify)
     c.inst("R1c.%s-verify-call" % tag, "one verify call", len(vs) == 1, "%d calls" % len(vs), f.where(), f.path)
     if len(vs) != 1:
@@ -123,7 +126,7 @@ def _proof_check(c, f, b, prov, g, okb, errs, tag, commit_call, field, missing, 
     ev = vs[0]
     cd = cond_desc(b, ev["conds"])
     c.inst("R1c.%s-under-some" % tag, "verify runs on the Some(commitment) edge of out.%s" % field,
-           (want_discr, "Some") in cd, "guards %s" % cd, f.where(ev["t"]["sp"]), f.path)
+           (want_discr, "Some") in cd or (alt_discr, "Confidential") in cd, "guards %s" % cd, f.where(ev["t"]["sp"]), f.path)
     hdr = loop_header_of(b, ev["bb"])
     c.inst("R1c.%s-in-output-loop" % tag, "inside the loop over self.output", hdr is not None and
            any(d == "discr(enext(arg1.output))" and l == "Some" for d, l in cd), "guards %s" % cd, f.where(ev["t"]["sp"]), f.path)
@@ -133,9 +136,9 @@ def _proof_check(c, f, b, prov, g, okb, errs, tag, commit_call, field, missing, 
     some_tgt = None
     for (sb, tb, vals, excl) in g.switch_edges():
         d = show(prov.operand(b.term(sb)["d"]))
-        if d == want_discr:
+        if d == want_discr or d == alt_discr:
             lab = cond_desc(b, [(sb, prov.operand(b.term(sb)["d"]), vals, excl)])
-            if lab and lab[0][1] == "Some":
+            if lab and lab[0][1] == ("Some" if d == want_discr else "Confidential"):
                 some_tgt = tb
     c.inst("R1c.%s-some-edge" % tag, "switch on out.%s.commitment() found" % field, some_tgt is not None, "", f.where(), f.path)
     if some_tgt is None:
@@ -188,13 +191,19 @@ def _proof_check(c, f, b, prov, g, okb, errs, tag, commit_call, field, missing, 
 
 
 def _bindings(c, f, b, prov, g):
+    from .c15 import Fn as _Fn, sh as _sh
+    for ty in ("Value", "Asset"):
+        AF = _Fn(f.prog, "confidential::%s::commitment" % ty)
+        rows = {tuple((_sh(cn), a) for k, cn, a in cx if k == "if"): _sh(s_[1]) for cx, s_ in AF.flat if s_[0] == "ret"}
+        c.inst("R1c.commitment-accessor", "%s::commitment(): Confidential(c) => Some(c), anything else => None" % ty,
+               rows == {(("discr(arg1)", "=2"),): "std::option::Option::Some{arg1.0}", (("discr(arg1)", "otherwise"),): "std::option::Option::None{}"}, "rows %s" % rows, AF.f.where(), AF.f.path)
     rp = _ev(b, r"RangeProof::verify$")
     if len(rp) == 1:
         a = [show(x) for x in rp[0]["args"]]
         want = ["%s.witness.rangeproof" % OUT, "arg2", "some(confidential::Value::commitment(%s.value))" % OUT,
                 "script::Script::as_bytes(%s.script_pubkey)" % OUT, "blind::get_asset_gen(%s, arg2)" % OUT]
         c.inst("R2.rangeproof-binding", "verify(secp, out.value commitment, out.script_pubkey bytes, out asset generator)",
-               a == want, "args %s" % a, f.where(rp[0]["t"]["sp"]), f.path)
+               a == want or a == want[:2] + ["%s.value.0" % OUT] + want[3:], "args %s" % a, f.where(rp[0]["t"]["sp"]), f.path)
         c.sample({"rule": "R2", "call": "RangeProof::verify", "args": a})
     sp = _ev(b, r"SurjectionProof::verify$")
     domain = None
@@ -202,7 +211,7 @@ def _bindings(c, f, b, prov, g):
         a = [show(x) for x in sp[0]["args"]]
         domain = sp[0]["args"][3]
         want = ["%s.witness.surjection_proof" % OUT, "arg2", "some(confidential::Asset::commitment(%s.asset))" % OUT]
-        c.inst("R2.surjection-binding", "verify(secp, out.asset generator, &domain)", a[:3] == want and domain[0] == "call"
+        c.inst("R2.surjection-binding", "verify(secp, out.asset generator, &domain)", (a[:3] == want or a[:3] == want[:2] + ["%s.asset.0" % OUT]) and domain[0] == "call"
                and domain[1].startswith("std::vec::Vec::<T>::new"), "args %s" % a, f.where(sp[0]["t"]["sp"]), f.path)
         c.sample({"rule": "R2", "call": "SurjectionProof::verify", "args": a})
     bal = _ev(b, r"verify_commitments_sum_to_equal$")
